@@ -54,3 +54,23 @@ Definition case_ok (c : commit_case) : bool :=
 
 Definition mismatches_commit (cs : list commit_case) : list N :=
   map (fun c => let '(id, _, _, _, _, _, _, _) := c in id) (filter (fun c => negb (case_ok c)) cs).
+
+(* ---- patch phase bookkeeping: the bowl calls of the patcher vs the work lists of Save() ---- *)
+Inductive lstep := LT (p k : path) | LW (p : path).
+
+Definition lists_case := (N * list path * list lstep * (list (path * path) * list path * list path))%type.
+
+Definition run_lists (ofiles : list path) (steps : list lstep) : work :=
+  wk (patch_phase (fun _ n => [Fresh n]) (mkC [] [] ofiles)
+        (map (fun s => match s with LT p k => PTranspose p k | LW p => PWrite p (fun _ => []) end) steps)
+        (mkWorld [] [] (mkW [] [] []))).
+
+Definition pair_eqb (a b : path * path) : bool := path_eqb (fst a) (fst b) && path_eqb (snd a) (snd b).
+
+Definition lists_ok (c : lists_case) : bool :=
+  let '(_, ofiles, steps, (tr, ov, mv)) := c in
+  let w := run_lists ofiles steps in
+  list_eqb pair_eqb (w_trans w) tr && list_eqb path_eqb (w_over w) ov && list_eqb path_eqb (w_moves w) mv.
+
+Definition mismatches_lists (cs : list lists_case) : list N :=
+  map (fun c => let '(id, _, _, _) := c in id) (filter (fun c => negb (lists_ok c)) cs).
